@@ -393,7 +393,9 @@ def valid_history(cmds):
                 return False
             present.add(t[2])
         elif t[0] == "NDEL":
-            if t[2] not in present:
+            # ... and at least two children stay (with one child left node4.deleteChild replaces the handle's
+            # node by that child, which the bare node handle and the raw dump do not model)
+            if t[2] not in present or len(present) <= 2:
                 return False
             present.discard(t[2])
     return True
